@@ -1,6 +1,6 @@
 #!/usr/bin/env python3
 """Apply ONE small behaviour-preserving edit at a time and record which rules raise violations (false alarms) or analysis
-errors.  Usage: benign_sweep.py <kind> <out.json>   kind in: swapif, flipcmp, temp, demorgan
+errors.  Usage: benign_sweep.py <kind> <out.json>   kind in: swapif, flipcmp, temp, demorgan, commute, tmpret, negcmp, ifexp2stmt, stmt2ifexp, dropelse, nestand
   swapif   `if c: A else: B`            ->  `if not c: B else: A`            (every if with a non-empty else that is not an elif chain)
   flipcmp  `a < b`                       ->  `b > a`                          (every single-operator ordering comparison)
   temp     `x = f(a) op g(b)`            ->  `_t = g(b); x = f(a) op _t`       (right operand of a binary operation in an assignment,
@@ -9,6 +9,7 @@ errors.  Usage: benign_sweep.py <kind> <out.json>   kind in: swapif, flipcmp, te
 """
 import ast, os, sys, json, shutil, tempfile, importlib, copy
 sys.path.insert(0, '/verif')
+os.environ['PDSA_NO_STRUCTURAL'] = '1'
 from concurrent.futures import ProcessPoolExecutor
 
 SRC = '/repo/src/pydrobert/speech'
@@ -28,9 +29,54 @@ def sites(tree, kind):
             # evaluation order: left operand is evaluated first; hoisting the right one is safe only if the left has no call
             if not any(isinstance(x, ast.Call) for x in ast.walk(n.value.left)):
                 out.append(n)
-        elif kind == 'demorgan' and isinstance(n, ast.If) and isinstance(n.test, ast.BoolOp) and n.orelse == [] and False:
+        elif kind == 'demorgan' and isinstance(n, (ast.If, ast.While, ast.IfExp)) and isinstance(n.test, ast.BoolOp):
+            out.append(n)
+        elif kind == 'commute' and isinstance(n, ast.BinOp) and isinstance(n.op, (ast.Add, ast.Mult)) and _numeric(n) and _pure(n.left) and _pure(n.right):
+            out.append(n)
+        elif kind == 'tmpret' and isinstance(n, ast.Return) and n.value is not None and not isinstance(n.value, (ast.Name, ast.Constant)):
+            out.append(n)
+        elif kind == 'negcmp' and isinstance(n, (ast.If, ast.While, ast.IfExp, ast.Assert)) and isinstance(n.test, ast.Compare) and len(n.test.ops) == 1 \
+                and isinstance(n.test.ops[0], (ast.NotEq, ast.IsNot, ast.NotIn)):
+            out.append(n)
+        elif kind == 'ifexp2stmt' and isinstance(n, ast.Assign) and isinstance(n.value, ast.IfExp) and len(n.targets) == 1 and isinstance(n.targets[0], ast.Name):
+            out.append(n)
+        elif kind == 'stmt2ifexp' and isinstance(n, ast.If) and len(n.body) == 1 and len(n.orelse) == 1 and all(
+                isinstance(b, ast.Assign) and len(b.targets) == 1 and isinstance(b.targets[0], ast.Name) for b in (n.body[0], n.orelse[0])) \
+                and n.body[0].targets[0].id == n.orelse[0].targets[0].id:
+            out.append(n)
+        elif kind == 'dropelse' and isinstance(n, ast.If) and n.orelse and isinstance(n.body[-1], (ast.Return, ast.Raise, ast.Continue, ast.Break)):
+            out.append(n)
+        elif kind == 'nestand' and isinstance(n, ast.If) and not n.orelse and isinstance(n.test, ast.BoolOp) and isinstance(n.test.op, ast.And):
             out.append(n)
     return out
+
+
+_PURE_CALLS = {'len', 'int', 'float', 'max', 'min', 'abs'}
+
+
+def _pure(e):
+    for x in ast.walk(e):
+        if isinstance(x, ast.Call):
+            f = x.func
+            nm = f.id if isinstance(f, ast.Name) else (f.attr if isinstance(f, ast.Attribute) else None)
+            base_np = isinstance(f, ast.Attribute) and isinstance(f.value, ast.Name) and f.value.id in ('np', 'math')
+            if not (nm in _PURE_CALLS or base_np):
+                return False
+        if isinstance(x, (ast.Yield, ast.Await, ast.NamedExpr)):
+            return False
+    return True
+
+
+def _numeric(n):
+    """the + or * is certainly arithmetic: no sequence / string operand in sight and one side is visibly a number"""
+    for side in (n.left, n.right):
+        for x in ast.walk(side):
+            if isinstance(x, (ast.List, ast.Tuple, ast.ListComp, ast.JoinedStr, ast.Dict, ast.Set)) or (isinstance(x, ast.Constant) and isinstance(x.value, (str, bytes))):
+                return False
+    def num(e):
+        return (isinstance(e, ast.Constant) and isinstance(e.value, (int, float)) and not isinstance(e.value, bool)) or (
+            isinstance(e, ast.BinOp) and isinstance(e.op, (ast.Mult, ast.Div, ast.FloorDiv, ast.Pow, ast.Mod, ast.Sub)))
+    return num(n.left) or num(n.right)
 
 
 def apply(tree, kind, idx):
@@ -58,6 +104,47 @@ def apply(tree, kind, idx):
                         b.insert(i, pre)
                 return node
         Ins().visit(tree)
+    elif kind == 'demorgan':
+        t = target.test
+        inv = ast.BoolOp(op=ast.Or() if isinstance(t.op, ast.And) else ast.And(), values=[ast.UnaryOp(op=ast.Not(), operand=v) for v in t.values])
+        target.test = ast.UnaryOp(op=ast.Not(), operand=inv)
+    elif kind == 'commute':
+        target.left, target.right = target.right, target.left
+    elif kind == 'negcmp':
+        t = target.test
+        pos = {ast.NotEq: ast.Eq, ast.IsNot: ast.Is, ast.NotIn: ast.In}[type(t.ops[0])]()
+        target.test = ast.UnaryOp(op=ast.Not(), operand=ast.Compare(left=t.left, ops=[pos], comparators=t.comparators))
+    elif kind in ('tmpret', 'ifexp2stmt', 'stmt2ifexp', 'dropelse', 'nestand'):
+        def repl(old):
+            if kind == 'tmpret':
+                return [ast.Assign(targets=[ast.Name(id='_result', ctx=ast.Store())], value=old.value), ast.Return(value=ast.Name(id='_result', ctx=ast.Load()))]
+            if kind == 'ifexp2stmt':
+                a, b = copy.copy(old), copy.copy(old)
+                a.value, b.value = old.value.body, old.value.orelse
+                return [ast.If(test=old.value.test, body=[a], orelse=[b])]
+            if kind == 'stmt2ifexp':
+                return [ast.Assign(targets=old.body[0].targets, value=ast.IfExp(test=old.test, body=old.body[0].value, orelse=old.orelse[0].value))]
+            if kind == 'dropelse':
+                tail = old.orelse
+                old.orelse = []
+                return [old] + tail
+            if kind == 'nestand':
+                inner = ast.If(test=old.test.values[-1], body=old.body, orelse=[])
+                rest = old.test.values[:-1]
+                old.test = rest[0] if len(rest) == 1 else ast.BoolOp(op=ast.And(), values=rest)
+                old.body = [inner]
+                return [old]
+
+        class Rep(ast.NodeTransformer):
+            def generic_visit(self, node):
+                super().generic_visit(node)
+                for fld in ('body', 'orelse', 'finalbody'):
+                    b = getattr(node, fld, None)
+                    if isinstance(b, list) and any(x is target for x in b):
+                        i = [k for k, x in enumerate(b) if x is target][0]
+                        b[i:i + 1] = repl(target)
+                return node
+        Rep().visit(tree)
     ast.fix_missing_locations(tree)
     return tree
 
@@ -83,9 +170,10 @@ def job(args):
                 mod.run(ctx)
             except Exception as e:
                 ctx.error('analysis', repr(e))
-            ctx.apply_anchor_table()
+            ctx.postprocess()
             if ctx.findings or ctx.errors:
                 res[p] = {'findings': sorted({f.rule for f in ctx.findings}), 'errors': sorted({e['rule'] for e in ctx.errors}),
+                          'clauses': sorted({(f.rule, f.clause) for f in ctx.findings}),
                           'first': (ctx.findings[0].message[:160] if ctx.findings else ctx.errors[0]['message'][:160])}
         return (fn_file, line, kind, res)
     finally:
@@ -103,7 +191,7 @@ if __name__ == '__main__':
             jobs.append((f, kind, i))
     print(len(jobs), kind, 'variants')
     results = []
-    with ProcessPoolExecutor(6) as ex:
+    with ProcessPoolExecutor(14) as ex:
         for r in ex.map(job, jobs, chunksize=2):
             results.append(r)
     json.dump(results, open(out, 'w'), indent=0)
